@@ -14,7 +14,7 @@ static METH: AtomicUsize = AtomicUsize::new(0);
 static DBG: AtomicUsize = AtomicUsize::new(0);
 fn root<T>(v: T) -> T { ROOT.fetch_add(1, SeqCst); v }
 /// an integer whose Debug impl counts its calls
-#[derive(Clone, PartialEq, PartialOrd)] struct CD(i32);
+#[derive(Clone, Copy, PartialEq, PartialOrd)] struct CD(i32);
 impl std::fmt::Debug for CD { fn fmt(&self, f: &mut std::fmt::Formatter<'_>) -> std::fmt::Result { DBG.fetch_add(1, SeqCst); write!(f, "{}", self.0) } }
 impl PartialEq<i32> for CD { fn eq(&self, o: &i32) -> bool { self.0 == *o } }
 impl PartialOrd<i32> for CD { fn partial_cmp(&self, o: &i32) -> Option<std::cmp::Ordering> { self.0.partial_cmp(o) } }
@@ -47,6 +47,8 @@ ROOT_CASES = [
     ("string", "String", "\"hello\".to_string()", "(str %s)" % hx("hello"), "\"hello\"", "\"x\"", None),
     ("regex", "String", "\"hello\".to_string()", "(str %s)" % hx("hello"), "=~ r\"^he\"", "=~ r\"^zz\"", None),
     ("closure", "i32", "5", "(int 5)", "|cl_x| cl_x > 3", "|cl_x| cl_x > 7", None),
+    ("closure_counting_debug", "CD", "CD(5)", "(int 5)", "|cl_x| cl_x > 3", "|cl_x| cl_x > 7", None),
+    ("eq_counting_debug", "CD", "CD(5)", "(int 5)", "== 5", "== 6", None),
     ("some", "Option<i32>", "Some(5)", "(variant %s (int 5))" % hx("Some"), "Some(5)", "Some(6)", None),
     ("variant_mismatch", "Option<i32>", "Some(5)", "(variant %s (int 5))" % hx("Some"), "Some(_)", "None", None),
     ("struct", "P2", "P2 { a: 1, b: 2 }", "(struct %s (%s (int 1)) (%s (int 2)))" % (hx("P2"), hx("a"), hx("b")), "P2 { a: 1, b: 2 }", "P2 { a: 1, b: 3 }", None),
@@ -71,7 +73,12 @@ DEBUG_CASES = [("c: == 5", "c: == 6", True), ("c: > 3", "c: > 7", True), ("oc: S
                ("xs.len(): 2", "xs.len(): 3", False), ("n: 5, c: >= 5", "n: 6, c: >= 5", False),
                ("c: |cl_x| *cl_x > 3", "c: |cl_x| *cl_x > 7", True), ("oc: Some(|cl_x| *cl_x > 3)", "oc: Some(|cl_x| *cl_x > 7)", True),
                ("xs: [|cl_x| *cl_x > 0, ..]", "xs: [|cl_x| *cl_x > 1, ..]", True), ("c: != 6", "c: != 5", True), ("c: <= 5", "c: < 5", True),
-               ("xs[0]: == 1", "xs[0]: == 2", True), ("xs[1]: > 1", "xs[1]: > 2", True)]
+               ("xs[0]: == 1", "xs[0]: == 2", True), ("xs[1]: > 1", "xs[1]: > 2", True),
+               # closure patterns over COMPUTED values (method result, index, both): the value is handed to the closure by value,
+               # so nothing may format it before the closure has answered
+               ("c.clone(): |cl_x| cl_x > 3", "c.clone(): |cl_x| cl_x > 7", True), ("xs[0]: |cl_x| cl_x > 0", "xs[0]: |cl_x| cl_x > 1", True),
+               ("xs[1].clone(): |cl_x| cl_x > 1", "xs[1].clone(): |cl_x| cl_x > 2", True),
+               ("c.clone(): == 5", "c.clone(): == 6", True)]
 
 CLASS_TEXT = {
     "C08-fail-path-double-eval": "on the failing path of a leaf or of a composite whose own shape fails, the value expression spliced into "
